@@ -20,7 +20,7 @@ LEVEL_TEXT = ("Seeded exploration; grammar of StepStateChanged / InputRequiredEv
               "at simulator quiescence before the driver lets the run finish.")
 LEVEL_NOTE = "Trusted: simulator loop, recording adapter decorator (sees every write_to_event_stream)."
 
-CFG = {"driver": "finish", "p_retry": 40, "p_fail": 25, "fan_max": 4, "p_ask": 25}
+CFG = {"driver": "finish", "p_retry": 40, "p_fail": 25, "fan_max": 4, "p_ask": 25, "p_collect": 35}
 
 
 def check(world, spec, outcome) -> None:
@@ -86,8 +86,22 @@ def check(world, spec, outcome) -> None:
         world.probe("preparing")
     if ire_ret:
         world.probe("ire-returned")
+        if spec.get("audit"):
+            world.probe("ire-type-also-accepted-by-a-step")
     world._nt = nprep >= 1 and nchg >= 6
 
 
+def gen(tape, cfg):
+    from worlds.engine import gen_spec
+    spec = gen_spec(tape, cfg)
+    asks = any(a[0] == "ret" and a[1] == "Ask0" for st in spec["steps"] for sc in st["scripts"].values() for a in sc)
+    if asks and tape.chance(35, 100, "audit-step?"):
+        # the question type is ALSO the input of a step (an audit / logging step): it must still be published for the human
+        spec["steps"].insert(-1, {"name": "aud", "accepts": ["Ask0"], "workers": 1, "sync": False, "retry": None, "role": "step",
+                                   "scripts": {"Ask0": [("work",), ("ret", None)]}, "returns": [], "stop": False})
+        spec["audit"] = True
+    return spec
+
+
 def run(tape):
-    return simulate(tape, CFG, check, nontrivial=lambda w, s, o: w._nt)
+    return simulate(tape, CFG, check, gen=gen, nontrivial=lambda w, s, o: w._nt)
